@@ -129,6 +129,11 @@ func (s *Scheduler) Retry(ctx context.Context, prev StepState) (state StepState,
 		},
 		DispatchErr: func(task def.Task, _ error) error {
 			fetched, err := s.repo.GetById(ctx, task.Id)
+			if def.IsIdNotFound(err) {
+				// The task is gone (a volatile repository forgets a task cancelled before dispatch):
+				// nothing is left to dispatch, and retrying would never succeed.
+				return nil
+			}
 			if err != nil {
 				state = StateDispatchErr(task, err)
 				return err
